@@ -26,7 +26,9 @@ RULE = ('Scenario = generated chain + flush plan in one of four sync phases: ini
         'caught-up server receiving 1..3 blocks, a caught-up server meeting a fork (depth 1..2), '
         'an idle caught-up server, a caught-up server working through 5 new blocks in batches when '
         'the daemon reorganises 1..3 deep below its tip at the k-th daemon call (the fork is met '
-        'with finished, unflushed blocks in memory). The uncancelled run is counted in scheduler steps (loop '
+        'with finished, unflushed blocks in memory), an initial sync through the repository\'s own '
+        'Daemon client with two URLs that all start refusing connections at the k-th call (the '
+        'client backs off and fails over while finished blocks sit in memory). The uncancelled run is counted in scheduler steps (loop '
         'iterations, each stepping at most one gated job to its next storage operation) from the '
         'trigger on; cancellation points c are drawn (quick: 16 per scenario; thorough: every c) '
         'and for each a tape decides how the jobs that overlap after the cancellation (the '
@@ -42,7 +44,7 @@ ASSUMPTIONS = ['interleavings are explored at storage-operation granularity (sou
                'LevelDB batch atomicity', 'cancelling a coroutine that awaits a started executor '
                'job does not stop the job; the interpreter joins the executor at exit']
 BUDGET_S = {'quick': 150, 'thorough': 3300}
-PHASES = ['initial', 'caught_up', 'reorg', 'idle', 'midbatch_fork']
+PHASES = ['initial', 'caught_up', 'reorg', 'idle', 'midbatch_fork', 'failover']
 
 
 def shards(tier):
@@ -57,7 +59,7 @@ CASE = st.builds(
     st.integers(0, 9), st.integers(1, 8),
     st.lists(scenario.block_desc(max_txs=4), min_size=6, max_size=12),
     st.lists(st.sampled_from([0, 0, 1, 2]), min_size=1, max_size=12),
-    st.sampled_from([0, 0, 1, 1, 1, 2, 2, 3, 4, 4]),
+    st.sampled_from([0, 0, 1, 1, 1, 2, 2, 3, 4, 4, 5, 5]),
     st.lists(scenario.block_desc(max_txs=4), min_size=1, max_size=3),
     st.integers(1, 2),
     st.lists(st.integers(0, 10 ** 6), min_size=16, max_size=16),
@@ -109,7 +111,7 @@ def run_once(scratch, case, cancel_at, tape):
 
     async def main():
         node = Node(db_dir, world, coin, reorg_limit=5, chooser=None, flush_plan=plan,
-                    storage_cls=SimStorage)
+                    storage_cls=SimStorage, real_daemon=2 if phase == 'failover' else 0)
         state['node'] = node
         real_flush = node.db.flush_dbs
         running = {'n': 0}
@@ -124,7 +126,20 @@ def run_once(scratch, case, cancel_at, tape):
                 running['n'] -= 1
         node.db.flush_dbs = flush_dbs
         try:
-            if phase == 'initial':
+            if phase == 'failover':
+                # initial sync through the repository's own Daemon client with two URLs; at the
+                # k-th daemon call every URL starts refusing connections, so the client backs
+                # off, fails over and keeps retrying while finished blocks sit in memory
+                left = [2 + case['cuts'][0] % 9]
+
+                def on_call(name, left=left):
+                    left[0] -= 1
+                    if left[0] == 0:
+                        node.daemon.take_down()
+                node.daemon.on_call = on_call
+                state['armed'] = True
+                node.start()
+            elif phase == 'initial':
                 state['armed'] = True
                 node.start()
             else:
@@ -160,6 +175,8 @@ def run_once(scratch, case, cancel_at, tape):
             if cancel_at is None:
                 if phase == 'idle':
                     await asyncio.sleep(12)
+                elif phase == 'failover':
+                    await asyncio.sleep(40)
                 else:
                     await node.settle()
                 out['steps'] = state['count']
